@@ -414,6 +414,16 @@ class Builder:
             self._stmt(s, frame)
 
     def _stmt(self, s, frame):
+        hook = getattr(self, '_yield_hook', None)
+        if hook is not None and isinstance(s, (ast.Expr, ast.Assign)) and \
+                s.value is hook[0]:
+            # the yield of a context manager being inlined by _with
+            self._yield_hook = None
+            try:
+                hook[1]()
+            finally:
+                self._yield_hook = hook
+            return
         if isinstance(s, ast.Expr):
             if isinstance(s.value, ast.Constant):
                 return
@@ -677,8 +687,80 @@ class Builder:
                 self.stack.pop()
             self._flush_pending(fin_scope, base_level, frame)
 
+    def _cm_target(self, e, frame):
+        """(target, resolution) when `e` calls a @contextmanager generator
+        of the repository that may be inlined here: one `yield` statement,
+        not inside a loop"""
+        if not isinstance(e, ast.Call) or frame.depth >= self.max_depth:
+            return None
+        res = self._resolve(e, frame)
+        if len(res.targets) != 1 or res.externals or res.unresolved:
+            return None
+        t = res.targets[0]
+        f = t.func
+        if not f.is_generator or not any(
+                d.rpartition('.')[2] == 'contextmanager'
+                for d in f.decorators):
+            return None
+        active = {fr.ctx.key() for fr in frame.chain()}
+        if t.ctx().key() in active or not self.inline(self, e, t, frame):
+            return None
+        from .model import walk_own
+        ys = [x for x in walk_own(f.node)
+              if isinstance(x, (ast.Yield, ast.YieldFrom))]
+        if len(ys) != 1 or isinstance(ys[0], ast.YieldFrom):
+            return None
+
+        def in_loop(stmts):
+            for st in stmts:
+                if isinstance(st, (ast.For, ast.While)) and any(
+                        y is ys[0] for y in ast.walk(st)):
+                    return True
+                for fld in ('body', 'orelse', 'finalbody', 'handlers'):
+                    sub = getattr(st, fld, None) or []
+                    for x in sub:
+                        if isinstance(x, ast.ExceptHandler):
+                            if in_loop(x.body):
+                                return True
+                    if sub and isinstance(sub[0], ast.stmt) and in_loop(sub):
+                        return True
+            return False
+        if in_loop(f.node.body):
+            return None
+        return t, res, ys[0]
+
     def _with(self, s, idx, frame):
         item = s.items[idx]
+        cm = self._cm_target(item.context_expr, frame)
+        if cm is not None:
+            # with <contextmanager>(...): the generator's code up to its
+            # yield, the block, the rest of the generator - the block sits
+            # where the yield is, inside the generator's try/finally
+            t, res, y = cm
+            e = item.context_expr
+            self._expr(e.func, frame)
+            for a in e.args:
+                self._expr(a.value if isinstance(a, ast.Starred) else a,
+                           frame)
+            for k in e.keywords:
+                self._expr(k.value, frame)
+            if not self.dangling:
+                return
+
+            def block():
+                if item.optional_vars is not None:
+                    self._emit('with_enter', item, frame)
+                if idx + 1 < len(s.items):
+                    self._with(s, idx + 1, frame)
+                else:
+                    self._body(s.body, frame)
+            saved = getattr(self, '_yield_hook', None)
+            self._yield_hook = (y, block)
+            try:
+                self.dangling = self._inline(e, t, frame, res)
+            finally:
+                self._yield_hook = saved
+            return
         self._expr(item.context_expr, frame)
         self._emit('with_enter', item, frame)
         sc = Scope('with', item, frame, pending_exc=[], stmt=s,
@@ -1054,7 +1136,11 @@ class Builder:
         if frame.depth < self.max_depth:
             active = {f.ctx.key() for f in frame.chain()}
             for t in res.targets:
+                # (calling a generator function runs none of its body: it
+                # is never inlined as a call - see _with for context
+                # managers)
                 if t.ctx().key() not in active and \
+                        not t.func.is_generator and \
                         self.inline(self, e, t, frame):
                     inl.append(t)
                 else:
